@@ -1,3 +1,4 @@
+import Firebolt.Properties.TransBase
 import Firebolt.Model.Tracker
 import Firebolt.Generated.Source
 import Firebolt.Expected.Source
@@ -497,6 +498,52 @@ theorem source_mrProcessEvent : GeneratedSrc.mrProcessEvent = ExpectedSrc.mrProc
 
 /-! ### influence closure: the pinned functions, and every function of the repository that writes a struct field or package
 variable they read, are unchanged (digests regenerated from /repo on every run; a difference names the functions) -/
+/-! ### The code itself, translated (`Generated/Trans.lean`, rewritten from /repo on every run by extractor/translate.go)
+
+The `translated_*` theorems are about MiniGo terms the translator produced from the current Go source: for every
+environment the translated fragment does what the hand-written model function says.  They are semantic obligations —
+a rewrite that preserves the behaviour keeps them provable, a changed comparison, bound or argument does not. -/
+section Translated
+open Firebolt.MiniGo Firebolt.TransBase
+
+theorem translated_trackerMin (σ : Env) : (run Trans.trackerMin σ).ret = some [min (σ "x") (σ "y")] := by
+  by_cases h : σ "x" > σ "y" <;> minigo_simp [Trans.trackerMin, h] <;> omega
+
+theorem translated_trackerMax (σ : Env) : (run Trans.trackerMax σ).ret = some [max (σ "x") (σ "y")] := by
+  by_cases h : σ "x" < σ "y" <;> minigo_simp [Trans.trackerMax, h] <;> omega
+
+/-- one iteration of AddRecoveryRequest's merge loop is `widen` on the request, and sets the flag iff `overlaps` -/
+theorem translated_addRequestMergeBody (σ : Env) :
+    let r := run Trans.addRequestMergeBody σ
+    let q : Req := ⟨σ "request.FromOffset", σ "request.ToOffset"⟩
+    (⟨r.env "request.FromOffset", r.env "request.ToOffset"⟩ : Req) = widen (σ "fromOffset") (σ "toOffset") q ∧
+    (r.env "overlapFound" ≠ 0 ↔ (σ "overlapFound" ≠ 0 ∨ overlaps (σ "fromOffset") (σ "toOffset") q = true)) ∧
+    r.calls = [] ∧ r.ret = none ∧ r.stuck = false := by
+  by_cases h1 : σ "fromOffset" ≤ σ "request.ToOffset" <;> by_cases h2 : σ "request.FromOffset" ≤ σ "toOffset" <;>
+  minigo_simp [Trans.addRequestMergeBody, widen, overlaps, h1, h2] <;> (try constructor) <;> (try split) <;> (try omega)
+
+/-- one iteration of MarkRecoveryComplete's loop: the request is retained iff its `to` differs -/
+theorem translated_markCompleteBody (σ : Env) :
+    let r := run Trans.markCompleteBody σ
+    (r.calls = if σ "request.ToOffset" ≠ σ "toOffset" then [("append retained", [σ "request"])] else []) ∧
+    (r.env "removedRequest" ≠ 0 ↔ (σ "removedRequest" ≠ 0 ∨ σ "request.ToOffset" = σ "toOffset")) ∧
+    r.ret = none ∧ r.stuck = false := by
+  by_cases h : σ "request.ToOffset" = σ "toOffset" <;> minigo_simp [Trans.markCompleteBody, h]
+
+/-- UpdateRecoveryRequest: broadcasts (and moves the head's `from`) iff the partition has a head request whose `to` matches -/
+theorem translated_updateRequest (σ : Env) :
+    let r := run Trans.updateRequest σ
+    let ok := σ "rt.recoveryRequests[partitionID]" ≠ 0 ∧ σ "len(requests.Requests)" > 0 ∧ σ "request.ToOffset" = σ "toOffset"
+    r.stuck = false ∧
+    (ok → r.env "request.FromOffset" = σ "fromOffset" ∧ r.ret = some [σ "rt.sendRecoveryRequests#0"] ∧
+          ("rt.sendRecoveryRequests", [σ "partitionID", σ "rt.recoveryRequests[partitionID]"]) ∈ r.calls) ∧
+    (¬ ok → r.env "request.FromOffset" = σ "request.FromOffset" ∧ r.ret = some [σ "fmt.Errorf#0"] ∧
+          ∀ a, ("rt.sendRecoveryRequests", a) ∉ r.calls) := by
+  by_cases h1 : σ "rt.recoveryRequests[partitionID]" = 0 <;> by_cases h2 : σ "len(requests.Requests)" > 0 <;>
+  by_cases h3 : σ "request.ToOffset" = σ "toOffset" <;>
+  minigo_simp [Trans.updateRequest, h1, h2, h3] <;> (try omega)
+end Translated
+
 theorem closure_unchanged : GeneratedClo.C08 = ExpectedClo.C08 := by rfl
 
 end Firebolt.C08
